@@ -13,8 +13,39 @@
 #include <vector>
 #include <sys/stat.h>
 #include <unistd.h>
+#include <time.h>
 
 using namespace asl;
+
+// ---- wall time of an exchange ("ms" of the recorded events) ----------------------------------------------------------------
+// The library gives up by itself after fixed times (HttpServer::serve drops a connection 10 s after it accepted it and waits
+// 5 s for data; HttpMessage::readBody stops after 10 s without input and hands over the truncated body).  Those are design
+// decisions of asl which the property does not forbid, and on an overloaded machine they fire.  The recorders therefore log
+// how long every exchange took (monotonic clock, from just before the client's first byte - for a kept-alive connection: from
+// just before connect(), because the server's limit counts from there - until the observation is complete); the Trace_Http*
+// specifications do not constrain the observation of an exchange that took SlowMs = C10_SLOW_MS or longer, and checks/C10.py
+// bounds how many of those a recording may contain.
+static const long C10_SLOW_MS = 4000;
+static inline long monoMs()
+{
+	struct timespec ts;
+	clock_gettime(CLOCK_MONOTONIC, &ts);
+	return (long)(ts.tv_sec * 1000LL + ts.tv_nsec / 1000000);
+}
+// Artificial stalls for demonstrating the above (recorders only: they set g_stallOn): VERIF_C10_STALL=<permille> makes a
+// handler sleep 11 s before it answers / a raw client pause 11 s inside a request with that probability.
+static bool g_stallOn = false;
+static inline bool stallNow()
+{
+	static int permille = -1;
+	static unsigned long counter = 0;
+	if (permille < 0) { const char* e = getenv("VERIF_C10_STALL"); permille = e ? atoi(e) : 0; }
+	if (!g_stallOn || permille <= 0) return false;
+	unsigned long long x = ((unsigned long long)__sync_add_and_fetch(&counter, 1) + (unsigned long long)getpid() * 1000003ULL) * 0x9E3779B97F4A7C15ULL;
+	x ^= x >> 29; x *= 0xBF58476D1CE4E5B9ULL; x ^= x >> 32;
+	return (int)(x % 1000) < permille;
+}
+static inline void maybeStall() { if (stallNow()) usleep(11000000); }
 
 static inline unsigned long long fnv64(const unsigned char* p, size_t n)
 {
@@ -114,6 +145,7 @@ struct TestHttpServer : public HttpServer
 		}
 		vj::Value c = it->second.c;
 		pthread_mutex_unlock(&g_mu);
+		maybeStall();
 		Observed o;
 		o.seen = true;
 		o.method = stdstr(req.method());
